@@ -135,7 +135,8 @@ CHECKS = {
               "hash_to_curve (0..8 inputs) run off-circuit and in-circuit with inputs and point exposed, honest and tampered."),
         design_ref="DESIGN.md 4/C06",
         note=("Bounded adversary (single consistent fault, sampled indices, cheap operations only on quick); "
-              "Jubjub low-order points are not covered; msm sizes 1..3 on quick, 1..8 on thorough. Two open known findings "
+              "Jubjub coordinates of low-order / off-subgroup points are refused by witness generation (a panic, counted as not satisfiable); whether the "
+              "constraints alone exclude them needs a two-cell lie, outside the one-fault adversary; msm sizes 1..3 on quick, 1..8 on thorough. Two open known findings "
               "(BLS12-381 point_from_coordinates without subgroup check; mul_by_constant on the identity with a constant "
               "above 128 bits), see known_findings.json."),
         technique="TLA+/TLC: executable Curve model + EccOps semantics generate scenarios; recorded gadget runs (honest and tampered via H1) validated as traces",
@@ -188,8 +189,8 @@ CHECKS = {
               "committed public inputs - the key must record np, and the real verifier must accept exactly the plain vector with the "
               "commitment to the committed values (shorter, longer, padded vectors, another or no commitment rejected)."),
         design_ref="DESIGN.md 4/C08",
-        note=("Not covered: verifying-key identities of the verifier gadget, the committed-scalar accumulator path, IR value types (zkir publish), "
-              "committed instance column. Edits are sampled positions on long vectors; satisfiability judged by MockProver."),
+        note=("Not covered: verifying-key identities of the verifier gadget (exercised inside C20's verifier circuit only), the committed-scalar "
+              "accumulator path, IR value types (zkir publish: under C18). Edits are sampled positions on long vectors; satisfiability judged by MockProver."),
         technique="TLA+/TLC: PublicInputs Encode/Decode model checked for round trip and injectivity; recorded exposures and edit verdicts validated as traces",
     ),
     "C09": dict(
@@ -247,7 +248,8 @@ CHECKS = {
               "and checks the encoding laws (decode(encode P) = P; whatever a checked decoder accepts re-encodes to the same "
               "bytes, is on the curve and in the subgroup where promised, and is accepted by the unchecked decoder)."),
         design_ref="DESIGN.md 4/C11",
-        note=("Not covered: points outside the subgroup built with unchecked "
+        note=("Jubjub points of order 2, 4, 8 and their sums with subgroup points are covered (group law, order predicates, cofactor clearing, the three "
+              "decoders); not covered: BLS12-381 / BN254 points outside the subgroup built with unchecked "
               "constructors, the byte formats themselves (judged by laws), random operands beyond the fixed menus."),
         technique="TLA+/TLC: executable Curve model over BigNat re-evaluates every recorded library call (trace validation)",
     ),
